@@ -35,16 +35,20 @@ ASSUMPTIONS = [
     "Pool.dispose()/recreate(), asyncio dialects, connect/first_connect/reset/checkin listeners are out of scope",
 ]
 LEVEL_TEXT = (
-    "Coq proofs over a sequential model of the record/fairy life cycle with a fault oracle at every DBAPI call, for all "
-    "operation histories, fault scripts and pool configurations: no leak once every holder is dropped, QueuePool "
-    "accounting exact on every failure path, ledger (open connection owned exactly once; closed never idle), no reuse "
-    "of closed / pool-invalidated / soft-invalidated connections under a strictly increasing clock; refutations with "
-    "witnesses where the code breaks the clause (BaseException out of close(), stale fairy after a BaseException in the "
-    "reset of an explicit close(), StaticPool abandoning an invalidated connection, equal time stamps)."
+    "Coq proofs over a sequential model of the record/fairy life cycle of the five pool classes with a fault oracle at "
+    "every DBAPI call, for all operation histories, fault scripts and configurations: no_leak (all five pools; guard: no "
+    "BaseException out of close()), overflow_consistent / checkedout() exact on every failure path (QueuePool; guard: no "
+    "BaseException out of close() or out of the reset of an explicit close()), both guards shown necessary by refutation "
+    "witnesses; refutations of ledger (StaticPool abandons an invalidated connection) and of no_dead_reuse (BaseException "
+    "out of close(); equal time stamps); the decision kernel of no_dead_reuse (get_connection) for all states."
 )
 LEVEL_NOTE = (
-    "Trusted: Coq kernel; the hand transcription (source pin + exhaustive single-fault correspondence on the real "
-    "pools); CPython refcount finalisation order.  No axioms."
+    "PARTIAL: the positive whole-history theorems for `ledger` and `no_dead_reuse` are not proved (only their refutation "
+    "witnesses, the get_connection kernel c26_no_dead_reuse_kernel_partial, and - as consequences of the accounting "
+    "invariant - 'queued records are never in use' inside overflow_consistent); both clauses are checked on every run by "
+    "the direct oracle on the implementation and by the model/implementation correspondence.  Trusted: Coq kernel; the "
+    "hand transcription (source pin + exhaustive single-fault correspondence on the real pools); CPython refcount "
+    "finalisation order.  No axioms."
 )
 TECHNIQUE = "Coq invariant proofs over a sequential fault-injected state machine; source pin; exhaustive fault-placement correspondence against the real pools with a fake DBAPI"
 ANCHORS = [
